@@ -16,7 +16,9 @@ use crate::verif::kernel::{self, Exit, RunParams};
 use crate::verif::refcodec::link as reflink;
 use crate::verif::refcodec::link::RefFrame;
 use crate::verif::rng::Rng;
-use crate::verif::runner::{erase, shrink_vec, Codec, Outcome, Property, Scenario, Tier, Violation};
+use crate::verif::runner::{
+    erase, shrink_vec, Codec, Outcome, Property, Scenario, Tier, Violation,
+};
 use serde::{Deserialize, Serialize};
 use std::sync::{Arc, Mutex};
 
@@ -68,7 +70,9 @@ fn gen_frame(rng: &mut Rng) -> RefFrame {
         rng.urange(0, 250)
     };
     let ctrl = if rng.chance(1, 2) {
-        *rng.pick(&[0x44u8, 0xC4, 0x40, 0xC0, 0x49, 0xC9, 0x0B, 0x8B, 0x00, 0x80, 0x53, 0x73, 0xD3, 0xF3])
+        *rng.pick(&[
+            0x44u8, 0xC4, 0x40, 0xC0, 0x49, 0xC9, 0x0B, 0x8B, 0x00, 0x80, 0x53, 0x73, 0xD3, 0xF3,
+        ])
     } else {
         rng.u8()
     };
@@ -76,7 +80,9 @@ fn gen_frame(rng: &mut Rng) -> RefFrame {
         match rng.below(6) {
             0 => 1,
             1 => 1024,
-            2 => *rng.pick(&[0xFFFFu16, 0xFFFE, 0xFFFD, 0xFFFC, 0xFFF0, 0xFFFB, 0x0564, 0x6405, 0]),
+            2 => *rng.pick(&[
+                0xFFFFu16, 0xFFFE, 0xFFFD, 0xFFFC, 0xFFF0, 0xFFFB, 0x0564, 0x6405, 0,
+            ]),
             _ => rng.u16(),
         }
     };
@@ -166,8 +172,12 @@ fn lib_format(f: &RefFrame) -> Option<Vec<u8>> {
     let res = if f.payload.is_empty() {
         format_header_only(header, &mut cursor).map(|d| d.frame.to_vec())
     } else {
-        format_data_frame(header, Payload::new(f.payload[0], &f.payload[1..]), &mut cursor)
-            .map(|d| d.frame.to_vec())
+        format_data_frame(
+            header,
+            Payload::new(f.payload[0], &f.payload[1..]),
+            &mut cursor,
+        )
+        .map(|d| d.frame.to_vec())
     };
     res.ok()
 }
@@ -287,7 +297,13 @@ impl Scenario for LinkScenario {
     }
 
     fn real_components(&self) -> Vec<&'static str> {
-        vec!["link::reader::Reader", "link::parser::Parser", "link::crc", "link::format", "link::header"]
+        vec![
+            "link::reader::Reader",
+            "link::parser::Parser",
+            "link::crc",
+            "link::format",
+            "link::header",
+        ]
     }
 
     fn stub_components(&self) -> Vec<&'static str> {
@@ -329,7 +345,8 @@ impl Scenario for LinkScenario {
         }
         let mut faults = Vec::new();
         let fault_style = rng.below(8);
-        let frame_spans: Vec<(usize, usize)> = offsets.iter().filter(|o| o.2).map(|o| (o.0, o.1)).collect();
+        let frame_spans: Vec<(usize, usize)> =
+            offsets.iter().filter(|o| o.2).map(|o| (o.0, o.1)).collect();
         let aim = |rng: &mut Rng, span: (usize, usize)| -> usize {
             // stratified over start octets, length, header, header crc, block data, block crc
             let (start, len) = span;
@@ -368,7 +385,9 @@ impl Scenario for LinkScenario {
             }
             6 => {
                 let span = *rng.pick(&frame_spans);
-                faults.push(Fault::Truncate { len: aim(rng, span) });
+                faults.push(Fault::Truncate {
+                    len: aim(rng, span),
+                });
             }
             _ => {
                 let span = *rng.pick(&frame_spans);
@@ -428,8 +447,12 @@ impl Scenario for LinkScenario {
                     v
                 }
                 4 => (0..rng.urange(2, 10)).map(|_| rng.urange(1, 40)).collect(),
-                5 => (0..rng.urange(2, 6)).map(|_| rng.urange(100, 700)).collect(),
-                _ => (0..rng.urange(1, 12)).map(|_| *rng.pick(&[1usize, 2, 7, 8, 9, 10, 11, 17, 18, 19, 291, 292, 293])).collect(),
+                5 => (0..rng.urange(2, 6))
+                    .map(|_| rng.urange(100, 700))
+                    .collect(),
+                _ => (0..rng.urange(1, 12))
+                    .map(|_| *rng.pick(&[1usize, 2, 7, 8, 9, 10, 11, 17, 18, 19, 291, 292, 293]))
+                    .collect(),
             }
         };
         Case {
@@ -518,7 +541,10 @@ impl Scenario for LinkScenario {
             (frames, err)
         } else {
             let r = reflink::deframe(&stream, discard);
-            (r.frames.into_iter().map(|x| x.1).collect(), r.first_error.is_some())
+            (
+                r.frames.into_iter().map(|x| x.1).collect(),
+                r.first_error.is_some(),
+            )
         };
 
         // the real reader in a simulated world
@@ -544,7 +570,11 @@ impl Scenario for LinkScenario {
         };
         let sock = SimSocket::new("reader", inbox.clone(), outbox, ChunkMode::All, 0)
             .datagram(case.datagram)
-            .with_plan(if case.datagram { Vec::new() } else { case.cuts.clone() });
+            .with_plan(if case.datagram {
+                Vec::new()
+            } else {
+                case.cuts.clone()
+            });
         let frag_size = case.frag_size;
         let d2 = delivered.clone();
         let params = RunParams {
@@ -558,7 +588,10 @@ impl Scenario for LinkScenario {
                 let mut reader = Reader::new(modes, frag_size);
                 let mut payload = FramePayload::new();
                 loop {
-                    match reader.read_frame(&mut phys, &mut payload, DecodeLevel::nothing()).await {
+                    match reader
+                        .read_frame(&mut phys, &mut payload, DecodeLevel::nothing())
+                        .await
+                    {
                         Ok((header, _)) => {
                             d2.lock().unwrap().frames.push(RefFrame {
                                 ctrl: header.control.to_u8(),
@@ -593,7 +626,8 @@ impl Scenario for LinkScenario {
             Exit::Done => {}
             Exit::Panic(task, msg, loc) => {
                 if loc.contains("/verif/") {
-                    outcome.harness_error = Some(format!("harness panic in {}: {} at {}", task, msg, loc));
+                    outcome.harness_error =
+                        Some(format!("harness panic in {}: {} at {}", task, msg, loc));
                 } else {
                     outcome.violation = Some(Violation::new(
                         "C06/panic",
@@ -606,7 +640,11 @@ impl Scenario for LinkScenario {
             other => {
                 outcome.violation = Some(Violation::new(
                     "C06/no-termination",
-                    format!("{:?}", other).split('(').next().unwrap_or("").to_string(),
+                    format!("{:?}", other)
+                        .split('(')
+                        .next()
+                        .unwrap_or("")
+                        .to_string(),
                     format!("link reader did not finish: {:?}", other),
                 ));
                 return outcome;
@@ -623,9 +661,13 @@ impl Scenario for LinkScenario {
                 .zip(expected.iter())
                 .position(|(a, b)| a != b)
                 .unwrap_or(got.frames.len().min(expected.len()));
-            let kind = if got.frames.len() < expected.len() && got.frames[..] == expected[..got.frames.len()] {
+            let kind = if got.frames.len() < expected.len()
+                && got.frames[..] == expected[..got.frames.len()]
+            {
                 "frame-lost"
-            } else if got.frames.len() > expected.len() && got.frames[..expected.len()] == expected[..] {
+            } else if got.frames.len() > expected.len()
+                && got.frames[..expected.len()] == expected[..]
+            {
                 "extra-frame"
             } else {
                 "frame-differs"
@@ -651,12 +693,19 @@ impl Scenario for LinkScenario {
         }
         if violation.is_none() && case.close_mode && ref_error {
             // (iv) the first framing error must end the session with a framing error
-            let is_frame_err = got.error.as_deref().map(|e| e.contains("BadFrame")).unwrap_or(false);
+            let is_frame_err = got
+                .error
+                .as_deref()
+                .map(|e| e.contains("BadFrame"))
+                .unwrap_or(false);
             if !is_frame_err {
                 violation = Some(Violation::new(
                     "C06/iv close-mode-error-not-reported",
                     "",
-                    format!("stream contains a framing error but the reader ended with {:?}", got.error),
+                    format!(
+                        "stream contains a framing error but the reader ended with {:?}",
+                        got.error
+                    ),
                 ));
             }
         }
@@ -664,7 +713,9 @@ impl Scenario for LinkScenario {
             // attribution without relying on the reference deframer
             let sent: Vec<&RefFrame> = built.frames.iter().map(|f| &f.2).collect();
             if !damaged && !case.datagram {
-                if got.frames.len() != sent.len() || got.frames.iter().zip(sent.iter()).any(|(a, b)| a != *b) {
+                if got.frames.len() != sent.len()
+                    || got.frames.iter().zip(sent.iter()).any(|(a, b)| a != *b)
+                {
                     violation = Some(Violation::new(
                         "C06/iii undamaged-stream-not-recovered",
                         "",
@@ -672,14 +723,20 @@ impl Scenario for LinkScenario {
                     ));
                 }
             } else {
-                let embedded = built.frames.iter().any(|f| f.2.payload.windows(2).any(|w| w == [0x05, 0x64]));
+                let embedded = built
+                    .frames
+                    .iter()
+                    .any(|f| f.2.payload.windows(2).any(|w| w == [0x05, 0x64]));
                 if !embedded {
                     for f in &got.frames {
                         if !sent.iter().any(|s| *s == f) {
                             violation = Some(Violation::new(
                                 "C06/ii delivered-frame-never-sent",
                                 "",
-                                format!("delivered frame {:?} equals none of the transmitted frames", (f.ctrl, f.dest, f.src, f.payload.len())),
+                                format!(
+                                    "delivered frame {:?} equals none of the transmitted frames",
+                                    (f.ctrl, f.dest, f.src, f.payload.len())
+                                ),
                             ));
                             break;
                         }
@@ -701,7 +758,12 @@ impl Scenario for LinkScenario {
             }
         } else if !case.cuts.is_empty() {
             let first = case.cuts[0];
-            boundary_inside = case.cuts.len() > 1 || built.frames.iter().any(|(s, l, _)| first > *s && first < s + l) || first < stream.len();
+            boundary_inside = case.cuts.len() > 1
+                || built
+                    .frames
+                    .iter()
+                    .any(|(s, l, _)| first > *s && first < s + l)
+                || first < stream.len();
         }
         let faulty = !case.faults.is_empty() || built.has_noise;
         outcome.nontrivial = boundary_inside && faulty;
@@ -711,9 +773,16 @@ impl Scenario for LinkScenario {
                 Fault::Truncate { .. } => outcome.count("fault.truncate", 1),
             }
         }
-        let noise_n = case.segments.iter().filter(|s| matches!(s, Segment::Noise(_))).count() as u64;
+        let noise_n = case
+            .segments
+            .iter()
+            .filter(|s| matches!(s, Segment::Noise(_)))
+            .count() as u64;
         outcome.count("fault.noise", noise_n);
-        outcome.count("fault.rechunk", report.counters.get("phys_reads").copied().unwrap_or(0));
+        outcome.count(
+            "fault.rechunk",
+            report.counters.get("phys_reads").copied().unwrap_or(0),
+        );
         outcome.count("frames_sent", built.frames.len() as u64);
         outcome.count("frames_delivered", got.frames.len() as u64);
         if stream.len() + 1 > buffer_size {
@@ -757,7 +826,11 @@ impl Scenario for LinkScenario {
             };
             h = crate::verif::rng::mix(&[h, v]);
         }
-        h = crate::verif::rng::mix(&[h, case.cuts.len().min(8) as u64, case.cuts.first().copied().unwrap_or(0).min(32) as u64]);
+        h = crate::verif::rng::mix(&[
+            h,
+            case.cuts.len().min(8) as u64,
+            case.cuts.first().copied().unwrap_or(0).min(32) as u64,
+        ]);
         outcome.fingerprint = h;
         outcome
     }
